@@ -33,14 +33,16 @@ func (pkg *RowFmtPackage) ReadFrom(ch BytesChannel) error {
 		return ErrNotEnoughBytes
 	}
 	readBytes := 2
-	pkg.Fmts = make([]FieldFmt, colCount)
+	// The columns are added as they are read - the count is sent by the
+	// server and the package may be read before it arrived completely.
+	pkg.Fmts = make([]FieldFmt, 0)
 
 	for i := 0; i < int(colCount); i++ {
 		fieldFmt, n, err := pkg.ReadFromField(ch)
 		if err != nil {
 			return fmt.Errorf("error reading column: %w", err)
 		}
-		pkg.Fmts[i] = fieldFmt
+		pkg.Fmts = append(pkg.Fmts, fieldFmt)
 		readBytes += n
 	}
 
